@@ -12,21 +12,21 @@ def prop(i, built, cat, tech, text, note, ref):
     P[i] = dict(built=built, cat=cat, tech=tech, text=text, note=note, ref=ref)
 
 prop("C01", True, "model_checking",
-     "TLA+ transcription of the basic URL parser; TLC enumerates every input over branch-character alphabets x bases, one step per parser-loop iteration; every terminal state replayed on the real code; recorded random traces validated by TLC",
+     "TLA+ transcription of the basic URL parser; TLC enumerates every input over branch-character alphabets x bases, one step per parser-loop iteration; every terminal state replayed on the real code; recorded random traces validated by TLC; novelty scan: the driver explores ~1 M token-generated calls on the real code and the rarest behaviour classes are recorded and validated by TLC (Trace_Api)",
      "Exhaustive within stated bounds (strings up to 4-10 code points over 10 family alphabets x up to 7 bases), exploration beyond them through recorded traces; equality of failure flag, serialization and all nine component getters through all three entry points.",
      TB + "; IDNA mapping taken as given.", "DESIGN.md section 4/C01")
 
 HT = "history (H-mode) families of the object machine spec/UrlApi.tla: bounded trees + closure (VIEW = abstract state) emitted by TLC, every state/transition replayed on the real API with all live handles projected after every step"
 prop("C03", True, "model_checking",
-     "TLC invariant RoundTrip on every parser output; expected re-parse result computed by the spec for every state of the setter trees/closure; replay re-parses the real serialization",
+     "TLC invariant RoundTrip on every parser output; expected re-parse result computed by the spec for every state of the setter trees/closure; replay re-parses the real serialization; novelty scan: the driver explores ~1 M token-generated calls on the real code and the rarest behaviour classes are recorded and validated by TLC (Trace_Api)",
      "Exhaustive within the bounds of the C01 parse families and the C05 setter families. Parser outputs must re-parse to themselves (TLC proves the same of the spec); after setters the code must re-parse exactly as the standard does, which also covers the standard's own non-round-tripping states (computed, not hard-coded).",
      TB + "; IDNA-dependent hosts are excluded from E/H families (covered by recorded traces).", "DESIGN.md section 4/C03")
 prop("C04", True, "model_checking",
-     "TLC invariants WellFormed/ComponentsOk/CompositionG/DerivedG on every reachable state of the object machine and the parse families; " + HT,
+     "TLC invariants WellFormed/ComponentsOk/CompositionG/DerivedG on every reachable state of the object machine and the parse families; " + HT + "; novelty scan: the driver explores ~1 M token-generated calls on the real code and the rarest behaviour classes are recorded and validated by TLC (Trace_Api)",
      "The invariants are established on the specification by TLC over closures and bounded trees (setters, resolve of further references, clone); the code is bound by equality of Href, Href(true), the nine components, Scheme, Query, Fragment, OpaquePath, IsSpecialScheme with the specification state after every step.",
      TB, "DESIGN.md section 4/C04")
 prop("C05", True, "model_checking",
-     "TLA+ transcription of the nine API setters (self-tested on 247 WPT vectors); " + HT,
+     "TLA+ transcription of the nine API setters (self-tested on 247 WPT vectors); " + HT + "; novelty scan: the driver explores ~1 M token-generated (start URL, setter, value) calls on the real code and the rarest behaviour classes are recorded and validated by TLC (Trace_Api)",
      "All setter histories up to depth 2-3 over value alphabets built to hit every guard and early return, from 17 start URLs, plus closures under seed-chosen op sub-alphabets; equality of serialization and the nine components after every call.",
      TB, "DESIGN.md section 4/C05")
 prop("C11", True, "model_checking",
@@ -42,7 +42,7 @@ prop("C13", True, "model_checking",
      "Parse, resolve, clone, then any setter / SearchParams mutation on either side, depth-bounded exhaustively; ALL live handles are projected after every call (19 getters + stored list), so a write to the wrong object is seen at the step it happens.",
      TB + "; snapshot hook.", "DESIGN.md section 4/C13")
 prop("C19", True, "model_checking",
-     "derived accessors defined as functions of the primary components in the spec (DerivedG, TLC invariant); " + HT,
+     "derived accessors defined as functions of the primary components in the spec (DerivedG, TLC invariant); " + HT + "; novelty scan (rarest behaviour classes of ~0.7 M generated calls, validated by TLC)",
      "IsIPv4, IsIPv6, DecodedPort, Scheme, Query, Fragment, OpaquePath, IsSpecialScheme, Href(true) compared after every step of parse/resolve/setter/clone histories and on the host parse families.",
      TB, "DESIGN.md section 4/C19")
 
@@ -68,7 +68,7 @@ prop("C10", True, "model_checking",
      "Set membership: exhaustive (finite table). Derivation sequences up to depth 2-3, every registry entry fingerprinted after every step. Codec laws: every string up to length 3-5 over a 10-character class alphabet x 10 named/derived sets.",
      TB, "DESIGN.md section 4/C10")
 prop("C15", True, "model_checking",
-     "choke-point model spec/Diag.tla checked for all event sequences up to 5 (and refuted, as a non-vacuity check, when a fatal event does not stop); " + EV,
+     "choke-point model spec/Diag.tla checked for all event sequences up to 5 (and refuted, as a non-vacuity check, when a fatal event does not stop); " + EV + "; the standard's validation-error inventory (spec/Diagnostics.tla) compared with the recorded types as information only (notes, never a verdict)",
      "For every (input, base) of the parse families the four configurations are run on the real code; TLC evaluates reporting == default, fail-on-VE subset/same URL/accepts exactly the silent inputs, documented error types, failure flags.",
      TB + "; the table of documented error identifiers (harness/cmd/vh/errnames.go, generated from errors/codes.go).", "DESIGN.md section 4/C15")
 
